@@ -249,6 +249,13 @@ func (c *Conn) writeFrame(ctx context.Context, fin bool, flate bool, opcode opco
 	}
 	defer c.writeFrameMu.unlock()
 
+	// Once a close frame has been written, no data frames and
+	// no second close frame may follow it.
+	// See https://tools.ietf.org/html/rfc6455#section-5.5.1
+	if c.wroteClose && opcode != opPing && opcode != opPong {
+		return 0, net.ErrClosed
+	}
+
 	select {
 	case <-c.closed:
 		return 0, net.ErrClosed
@@ -301,6 +308,10 @@ func (c *Conn) writeFrame(ctx context.Context, fin bool, flate bool, opcode opco
 		if err != nil {
 			return n, fmt.Errorf("failed to flush: %w", err)
 		}
+	}
+
+	if opcode == opClose {
+		c.wroteClose = true
 	}
 
 	select {
